@@ -224,6 +224,7 @@ func (w *World) runHarness(h *Harness) (res *Result) {
 	}
 	e.allocSeq = ii.allocSeq
 	callAllocBase = ii.allocSeq
+	litLookup = e.litRead
 	// globals that may be written after init are arbitrary at entry
 	for name, m := range st.mems {
 		if strings.HasPrefix(name, "global:") {
